@@ -1,5 +1,6 @@
 import Driver.Util
 import MpcVerif.Model.Determinism
+import MpcVerif.Model.ProcState
 
 namespace Drv.C08
 open Mpc Mpc.Det Drv
@@ -35,11 +36,26 @@ def renderBlock (withAnon : Bool) (b : String × Option Nat) : String :=
   | some k => if withAnon then s!".{b.1}@{k}" else s!".{b.1}"
   | none => s!".{b.1}"
 
+def parseFoldOp : String → Option PSt.FoldOp
+  | "div" => some .div | "mod" => some .mod | "mul" => some .mul | "add" => some .add | "sub" => some .sub
+  | _ => none
+
+/-- `w:op:x:y` -/
+def parseFold (s : String) : Option PSt.FoldReq :=
+  match s.splitOn ":" with
+  | [w, op, x, y] => do some { w := ← w.toNat?, op := ← parseFoldOp op, x := ← x.toNat?, y := ← y.toNat? }
+  | _ => none
+
+/-- one compilation: `fold,fold,...` -/
+def parseSrc (s : String) : Option PSt.Src := (s.splitOn ",").mapM parseFold
+
 /--
 `dc <hex names in hand-over order>`            → names in the order DefineConstants wires them
 `ts <hexkey=val,...> <t>`                      → key found by Type.String's search, or `none`
 `init <lib> <root>`                            → init blocks emitted by Package.Init
 `hist <k> <lib> <root> <calls>`                → init blocks and function labels of k compilations on one Compiler
+`phist <src>;<src>;...`                        → the folded wide constants of every compilation of a history in one
+                                                 process (`PSt.outputsAlong PSt.stepNow`), `src` = `w:op:x:y,...`
 -/
 def handle (args : List String) : String :=
   match args with
@@ -82,6 +98,12 @@ def handle (args : List String) : String :=
           "init=" ++ joinOr (o.initBlocks.map (renderBlock false)) ++ ";fn=" ++
             joinOr (o.funcLabels.map fun f => s!"{f.1}#{f.2}"))
     | _, _ => "bad-op"
+  | ["phist", hist] =>
+    match (hist.splitOn ";").mapM parseSrc with
+    | none => "bad-op"
+    | some srcs =>
+      let outs := PSt.outputsAlong (PSt.stepNow (σ := Unit) (π := Unit)) () (srcs.map fun s => (s, ()))
+      ";".intercalate (outs.map fun o => ",".intercalate (o.map toString))
   | ["fhist", lib, root, calls, n] =>
     -- failing compilation (n function instances done), good one, failing one, good one - on one Compiler
     match n.toNat?, parseLib lib with
